@@ -318,6 +318,7 @@ def correspond(ctx):
                             {"V": {"$fn": [0.1, 0.3]}, "H": {"$fn": [0.2, 0.7]}}):
                     case = sample_case(rng, side, module)
                     case["kw"] = {"specular_reflection": arg}
+                    case["npol"] = 2              # the reflectors refuse three polarisations
                     co.add(f"{side}.{module}", case_line(case), case_impl(case), TOL, desc=case)
                     co.note(f"{module} end-point reflectivity")
             if side == "substrate" and module in ADAPTED:
@@ -755,6 +756,7 @@ def oracle(ctx, hints, effort):
                 for arg in (0.0, 0, 1.0, 1, {"V": 0.0, "H": 1.0}, {"$fn": [0.25, 0.6]}, {"V": {"$fn": [0.1, 0.3]}, "H": 0.4}):
                     case = sample_case(rng, side, module)
                     case["kw"] = {"specular_reflection": arg}
+                    case["npol"] = 2              # the reflectors refuse three polarisations
                     record(case)
             if REG[(side, module)][0] in ("iem", "choudhury", "qnh"):
                 for _ in range(40 if big else 6):
